@@ -17,6 +17,7 @@ const (
 	hHavoc
 	hIte
 	hZero // fresh array / map: every key whose first component equals key[0] reads val
+	hConst // every key reads val
 	hCopy // key = [dstArr, dstOff, n, srcArr, srcOff]; a = source heap snapshot
 	hStr  // bytes of a string: key[0]=array identity, key[1]=string identity
 )
@@ -146,6 +147,8 @@ func (h *Heap) Read(key []*Term) *Term {
 	switch h.kind {
 	case hBase:
 		r = App(h.uf, h.cls.Val, key...)
+		h.registerHook()
+		TS.hooked[r.id] = true
 		h.baseFacts(r, key)
 	case hStore:
 		e := keysEq(key, h.key)
@@ -165,6 +168,8 @@ func (h *Heap) Read(key []*Term) *Term {
 			r = h.prev.Read(key)
 		} else {
 			f := App(h.uf, h.cls.Val, key...)
+			h.registerHook()
+			TS.hooked[f.id] = true
 			h.baseFacts(f, key)
 			if c == True {
 				r = f
@@ -183,6 +188,8 @@ func (h *Heap) Read(key []*Term) *Term {
 			sk := []*Term{srcArr, BVBin("bvadd", srcOff, BVBin("bvsub", key[1], dstOff))}
 			r = Ite(in, h.a.Read(sk), h.prev.Read(key))
 		}
+	case hConst:
+		r = h.val
 	case hZero:
 		r = Ite(Eq(key[0], h.key[0]), h.val, h.prev.Read(key))
 	case hStr:
@@ -225,6 +232,8 @@ func (h *Heap) describe(d int) string {
 		return "havoc(" + h.tag + ") <- " + h.prev.describe(d-1)
 	case hIte:
 		return fmt.Sprintf("ite(%s, %s, %s)", h.c.Short(), h.a.describe(d-1), h.b.describe(d-1))
+	case hConst:
+		return "const"
 	case hZero:
 		return "zero <- " + h.prev.describe(d-1)
 	case hCopy:
@@ -233,4 +242,16 @@ func (h *Heap) describe(d int) string {
 		return "str <- " + h.prev.describe(d-1)
 	}
 	return "?"
+}
+
+func (h *Heap) registerHook() {
+	if _, ok := TS.hooks[h.uf]; ok {
+		return
+	}
+	hh := h
+	TS.hooks[h.uf] = func(t *Term) {
+		if len(t.args) == len(hh.cls.Key) {
+			hh.baseFacts(t, t.args)
+		}
+	}
 }
